@@ -826,3 +826,100 @@ func isSliceValue(v ssa.Value, x *ssa.MakeSlice) bool {
 	}
 	return n == 1 && match
 }
+
+// RunStrictChoice: "the smaller of the alternative formats is chosen".  Where
+// a function compares two size fields of one structure (format1Size against
+// format2Size) and then computes with one of them (a count derived from the
+// size: (format2Size-4)/6), that size must be the strictly smaller one on the
+// branch where it is used.  Strictness matters when the sizes come from a
+// counting loop that stops as soon as the running size reaches the other one:
+// the stored size is then exact only if it is smaller, and on a tie the count
+// derived from it is too small.
+func RunStrictChoice(w *World, r *Report, fns []*ssa.Function, br *boundsRun) {
+	r.Rule("strictchoice: where a function branches on a comparison of two integer fields of one structure and computes with one of the two (subtracts from it, divides it), the prover shows at that computation that the field used is strictly smaller than the other one: a size that a budget-limited counting loop produced is exact only below the budget, so on a tie the other format must be taken")
+	for _, fn := range fns {
+		if fn.Blocks == nil {
+			continue
+		}
+		type fld struct {
+			base  ssa.Value
+			field int
+		}
+		fieldOf := func(v ssa.Value) (fld, bool) {
+			ld, ok := v.(*ssa.UnOp)
+			if !ok || ld.Op != token.MUL {
+				return fld{}, false
+			}
+			fa, ok := ld.X.(*ssa.FieldAddr)
+			if !ok || !isIntType(ld.Type()) {
+				return fld{}, false
+			}
+			return fld{fa.X, fa.Field}, true
+		}
+		// pairs of fields compared with each other
+		other := map[fld]fld{}
+		for _, b := range fn.Blocks {
+			ifi, ok := b.Instrs[len(b.Instrs)-1].(*ssa.If)
+			if !ok {
+				continue
+			}
+			cmp, ok := ifi.Cond.(*ssa.BinOp)
+			if !ok {
+				continue
+			}
+			switch cmp.Op {
+			case token.LSS, token.LEQ, token.GTR, token.GEQ:
+			default:
+				continue
+			}
+			fx, ok1 := fieldOf(cmp.X)
+			fy, ok2 := fieldOf(cmp.Y)
+			if ok1 && ok2 && fx.base == fy.base && fx.field != fy.field {
+				other[fx], other[fy] = fy, fx
+			}
+		}
+		if len(other) == 0 {
+			continue
+		}
+		p := br.prover(fn)
+		for _, b := range fn.Blocks {
+			for _, in := range b.Instrs {
+				bo, ok := in.(*ssa.BinOp)
+				if !ok || (bo.Op != token.SUB && bo.Op != token.QUO) {
+					continue
+				}
+				fu, ok := fieldOf(bo.X)
+				if !ok {
+					continue
+				}
+				fo, ok := other[fu]
+				if !ok {
+					continue
+				}
+				// the other field as loaded in this function: any load of it
+				var otherLoad ssa.Value
+				for _, b2 := range fn.Blocks {
+					for _, in2 := range b2.Instrs {
+						if v, ok := in2.(ssa.Value); ok {
+							if f2, ok := fieldOf(v); ok && f2 == fo && b2.Dominates(b) {
+								otherLoad = v
+							}
+						}
+					}
+				}
+				st := fu.base.Type().Underlying().(*types.Pointer).Elem().Underlying().(*types.Struct)
+				key := r.MkKey("strictchoice", fnName(fn), "use of "+st.Field(fu.field).Name())
+				if otherLoad == nil {
+					r.Fail("strictchoice", key, w.Pos(bo.Pos()), "the field is used in a computation where its comparison partner "+st.Field(fo.field).Name()+" was not loaded before: the choice between the two is not visible here", nil)
+					continue
+				}
+				d, okd := p.linOf(otherLoad).sub(p.linOf(bo.X))
+				if okd && p.proveAt(b, d.addc(-1)) {
+					r.OK("strictchoice", key, w.Pos(bo.Pos()), "used only where it is strictly smaller than "+st.Field(fo.field).Name())
+				} else {
+					r.Fail("strictchoice", key, w.Pos(bo.Pos()), fmt.Sprintf("%s is used to derive a count although it is not shown to be strictly smaller than %s here: on a tie the size may come from a counting loop that stopped at the budget, and the count is then too small for what is written", st.Field(fu.field).Name(), st.Field(fo.field).Name()), nil)
+				}
+			}
+		}
+	}
+}
